@@ -1,2 +1,465 @@
 import PV.Model.Traverse
 import PV.Model.Eval
+import PV.Proofs.Subterm
+/-
+  C08 — substitution (`SubstitutionMapper` over `IdentityMapper`, model `substM`).
+-/
+namespace PV.C08
+open PV
+
+/-! ### flag soundness and identity preservation -/
+
+/-- If the "new object" flag is off, the very same tree comes back. -/
+theorem subst_flag_sound (σ : SubstMap) (e : Expr) (h : (substM σ e).2 = false) :
+    (substM σ e).1 = e := by
+  have := substM_spec σ e
+  rw [this.1, this.2 h]
+
+theorem substL_flag_sound (σ : SubstMap) (cs : List Expr) (h : (substL σ cs).2 = false) :
+    (substL σ cs).1 = cs := by
+  have := substML_spec σ cs
+  rw [this.1, this.2 h]
+
+/-- hypotheses of `subst_untouched_same`, closed under taking children -/
+structure Untouched (σ : SubstMap) (e : Expr) : Prop where
+  noHit : ∀ t, Subterm t e → σ.apply t = none
+  noList : ∀ cs, ¬ Subterm (.list cs) e
+  noZeroCse : ∀ c p s, Subterm (.cse c p s) e → c.isZero = false
+
+theorem Untouched.child {σ : SubstMap} {e c : Expr} (h : Untouched σ e) (hc : c ∈ e.children) :
+    Untouched σ c :=
+  ⟨fun t ht => h.noHit t (ht.trans (.child hc)),
+   fun cs ht => h.noList cs (ht.trans (.child hc)),
+   fun c' p s ht => h.noZeroCse c' p s (ht.trans (.child hc))⟩
+
+mutual
+/-- **Identity preservation.**  If the substitution hits no subterm of `e`, `e` contains no Python
+list and no CSE wrapper around a zero child, the mapper returns the identical object. -/
+theorem subst_untouched_same (σ : SubstMap) : ∀ e : Expr, Untouched σ e → substM σ e = (e, false)
+  | .var x, h => by simp [substM, h.noHit _ (.refl _)]
+  | .const _, _ => by simp [substM]
+  | .nan, _ => by simp [substM]
+  | .wildcard, _ => by simp [substM]
+  | .dotWild _, _ => by simp [substM]
+  | .starWild _, _ => by simp [substM]
+  | .funcSym, _ => by simp [substM]
+  | .subscript a b, h => by
+      simp [substM, h.noHit _ (.refl _),
+        subst_untouched_same σ a (h.child (by simp [Expr.children])),
+        subst_untouched_same σ b (h.child (by simp [Expr.children]))]
+  | .lookup a n, h => by
+      simp [substM, h.noHit _ (.refl _),
+        subst_untouched_same σ a (h.child (by simp [Expr.children]))]
+  | .bin o a b, h => by
+      simp [substM,
+        subst_untouched_same σ a (h.child (by simp [Expr.children])),
+        subst_untouched_same σ b (h.child (by simp [Expr.children]))]
+  | .cmp o a b, h => by
+      simp [substM,
+        subst_untouched_same σ a (h.child (by simp [Expr.children])),
+        subst_untouched_same σ b (h.child (by simp [Expr.children]))]
+  | .un o a, h => by
+      simp [substM, subst_untouched_same σ a (h.child (by simp [Expr.children]))]
+  | .deriv a vs, h => by
+      simp [substM, subst_untouched_same σ a (h.child (by simp [Expr.children]))]
+  | .cse a p s, h => by
+      simp [substM, subst_untouched_same σ a (h.child (by simp [Expr.children])),
+        h.noZeroCse a p s (.refl _)]
+  | .ite a b c, h => by
+      simp [substM,
+        subst_untouched_same σ a (h.child (by simp [Expr.children])),
+        subst_untouched_same σ b (h.child (by simp [Expr.children])),
+        subst_untouched_same σ c (h.child (by simp [Expr.children]))]
+  | .nary o cs, h => by
+      simp [substM, substL_untouched_same σ cs (fun c hc => h.child (by simp [Expr.children, hc]))]
+  | .slice cs, h => by
+      simp [substM, substL_untouched_same σ cs (fun c hc => h.child (by simp [Expr.children, hc]))]
+  | .tuple cs, h => by
+      simp [substM, substL_untouched_same σ cs (fun c hc => h.child (by simp [Expr.children, hc]))]
+  | .list cs, h => absurd (.refl _) (h.noList cs)
+  | .call a cs, h => by
+      simp [substM, subst_untouched_same σ a (h.child (by simp [Expr.children])),
+        substL_untouched_same σ cs (fun c hc => h.child (by simp [Expr.children, hc]))]
+  | .subst a vs cs, h => by
+      simp [substM, subst_untouched_same σ a (h.child (by simp [Expr.children])),
+        substL_untouched_same σ cs (fun c hc => h.child (by simp [Expr.children, hc]))]
+  | .callKw a bs ns cs, h => by
+      simp [substM, subst_untouched_same σ a (h.child (by simp [Expr.children])),
+        substL_untouched_same σ bs (fun c hc => h.child (by simp [Expr.children, hc])),
+        substL_untouched_same σ cs (fun c hc => h.child (by simp [Expr.children, hc]))]
+theorem substL_untouched_same (σ : SubstMap) : ∀ cs : List Expr, (∀ c ∈ cs, Untouched σ c) →
+    substL σ cs = (cs, false)
+  | [], _ => by simp [substL]
+  | c :: cs, h => by
+      simp [substL, subst_untouched_same σ c (h c (by simp)),
+        substL_untouched_same σ cs (fun c hc => h c (by simp [hc]))]
+end
+
+/-! ### the substitution lemma -/
+
+/-- the environment after substitution: each replaced name is bound to the value of its replacement
+(in the ORIGINAL environment: substitution is simultaneous) -/
+def envAfterL (env : Env) : List (String × Expr) → Env
+  | [] => env
+  | (x, r) :: rest => match den env r with
+    | .ok v => (x, v) :: envAfterL env rest
+    | .error _ => envAfterL env rest
+
+def envAfter (env : Env) (σ : SubstMap) : Env := envAfterL env σ.byName
+
+theorem envAfterL_get_none (env : Env) (x : String) : ∀ l : List (String × Expr),
+    l.find? (fun p => p.1 == x) = none → Env.get (envAfterL env l) x = env.get x
+  | [], _ => rfl
+  | (y, r) :: l, h => by
+      simp only [List.find?_cons] at h
+      cases hyx : (y == x) with
+      | true => simp [hyx] at h
+      | false =>
+        simp only [hyx] at h
+        have ih := envAfterL_get_none env x l h
+        have hne : ¬ y = x := by simpa using hyx
+        simp only [envAfterL]
+        cases den env r <;> simp [Env.get, hne, ih]
+
+theorem envAfterL_get_some (env : Env) (x : String) (p : String × Expr) (v : Value) :
+    ∀ l : List (String × Expr), l.find? (fun p => p.1 == x) = some p → den env p.2 = .ok v →
+      Env.get (envAfterL env l) x = some v
+  | [], h, _ => by simp at h
+  | (y, r) :: l, h, hv => by
+      simp only [List.find?_cons] at h
+      cases hyx : (y == x) with
+      | true =>
+        simp only [hyx, Option.some.injEq] at h
+        subst h
+        have he : y = x := by simpa using hyx
+        simp [envAfterL, hv, Env.get, he]
+      | false =>
+        simp only [hyx] at h
+        have ih := envAfterL_get_some env x p v l h hv
+        have hne : ¬ y = x := by simpa using hyx
+        simp only [envAfterL]
+        cases den env r <;> simp [Env.get, hne, ih]
+
+/-- all replacements evaluate (in the original environment) -/
+def SubstOK (env : Env) (σ : SubstMap) : Prop :=
+  ∀ x r, σ.findName x = some r → ∃ v, den env r = .ok v
+
+/-- no CSE wrapper of `e` whose substituted child is zero (`IdentityMapper` collapses those) -/
+def NoZeroCse (σ : SubstMap) (e : Expr) : Prop :=
+  ∀ c p s, Subterm (.cse c p s) e → (substM σ c).1.isZero = false
+
+theorem NoZeroCse.child {σ : SubstMap} {e c : Expr} (h : NoZeroCse σ e) (hc : c ∈ e.children) :
+    NoZeroCse σ c :=
+  fun c' p s ht => h c' p s (ht.trans (.child hc))
+
+theorem apply_var_of_byName {σ : SubstMap} (hσ : σ.byExpr = []) (x : String) :
+    σ.apply (.var x) = σ.findName x := by
+  simp [SubstMap.apply, SubstMap.findExpr, hσ]
+
+theorem apply_nonvar_of_byName {σ : SubstMap} (hσ : σ.byExpr = []) (e : Expr)
+    (h : ∀ x, e ≠ .var x) : σ.apply e = none := by
+  cases e <;> simp_all [SubstMap.apply, SubstMap.findExpr]
+
+theorem den_var_subst {env : Env} {σ : SubstMap} (hσ : σ.byExpr = []) (hok : SubstOK env σ)
+    (x : String) : den env (substE σ (.var x)) = den (envAfter env σ) (.var x) := by
+  simp only [substE, apply_var_of_byName hσ]
+  cases hf : σ.findName x with
+  | none =>
+    have : σ.byName.find? (fun p => p.1 == x) = none := by
+      simp only [SubstMap.findName] at hf
+      cases hq : σ.byName.find? (fun p => p.1 == x) <;> simp_all
+    simp only [den, envAfter, envAfterL_get_none env x _ this]
+  | some r =>
+    obtain ⟨v, hv⟩ := hok x r hf
+    simp only [SubstMap.findName] at hf
+    cases hq : σ.byName.find? (fun p => p.1 == x) with
+    | none => simp [hq] at hf
+    | some q =>
+      simp only [hq, Option.some.injEq] at hf
+      subst hf
+      simp only [den, envAfter, envAfterL_get_some env x q v _ hq hv, hv]
+      rfl
+
+section
+set_option linter.unusedSectionVars false
+variable {env : Env} {σ : SubstMap} (hσ : σ.byExpr = []) (hok : SubstOK env σ)
+include hσ hok
+
+mutual
+theorem den_substE : ∀ e : Expr, NoZeroCse σ e →
+    den env (substE σ e) = den (envAfter env σ) e
+  | .var x, _ => den_var_subst hσ hok x
+  | .const _, _ => by simp only [substE, den]
+  | .nan, _ => by simp only [substE, den]
+  | .wildcard, _ => by simp only [substE, den]
+  | .dotWild _, _ => by simp only [substE, den]
+  | .starWild _, _ => by simp only [substE, den]
+  | .funcSym, _ => by simp only [substE, den]
+  | .subscript a b, h => by
+      simp only [substE, apply_nonvar_of_byName hσ (.subscript a b) (by simp), den,
+        den_substE a (h.child (by simp [Expr.children])),
+        den_substE b (h.child (by simp [Expr.children]))]
+  | .lookup a n, h => by
+      simp only [substE, apply_nonvar_of_byName hσ (.lookup a n) (by simp), den,
+        den_substE a (h.child (by simp [Expr.children]))]
+  | .bin o a b, h => by
+      simp only [substE, den,
+        den_substE a (h.child (by simp [Expr.children])),
+        den_substE b (h.child (by simp [Expr.children]))]
+  | .cmp o a b, h => by
+      simp only [substE, den,
+        den_substE a (h.child (by simp [Expr.children])),
+        den_substE b (h.child (by simp [Expr.children]))]
+  | .un o a, h => by
+      cases o <;> simp only [substE, den, den_substE a (h.child (by simp [Expr.children]))]
+  | .deriv a vs, _ => by simp only [substE, den]
+  | .subst a vs cs, _ => by simp only [substE, den]
+  | .slice cs, _ => by simp only [substE, den]
+  | .cse a p s, h => by
+      have hz : (substE σ a).isZero = false := by
+        rw [← (substM_spec σ a).1]; exact h a p s (.refl _)
+      simp [substE, hz, den, den_substE a (h.child (by simp [Expr.children]))]
+  | .ite a b c, h => by
+      simp only [substE, den,
+        den_substE a (h.child (by simp [Expr.children])),
+        den_substE b (h.child (by simp [Expr.children])),
+        den_substE c (h.child (by simp [Expr.children]))]
+  | .nary o cs, h => by
+      have hcs : ∀ c ∈ cs, NoZeroCse σ c := fun c hc => h.child (by simp [Expr.children, hc])
+      cases o <;> simp only [substE, den]
+      · exact denFold_substE .sum _ cs hcs
+      · exact denFold_substE .prod _ cs hcs
+      · exact denReduce_substE .bor cs hcs
+      · exact denReduce_substE .bxor cs hcs
+      · exact denReduce_substE .band cs hcs
+      · exact denAny_substE cs hcs
+      · exact denAll_substE cs hcs
+      · exact denMinMax_substE true none cs hcs
+      · exact denMinMax_substE false none cs hcs
+  | .tuple cs, h => by
+      simp only [substE, den,
+        denList_substE cs (fun c hc => h.child (by simp [Expr.children, hc]))]
+  | .list cs, h => by
+      simp only [substE, den,
+        denList_substE cs (fun c hc => h.child (by simp [Expr.children, hc]))]
+  | .call a cs, h => by
+      simp only [substE, den, den_substE a (h.child (by simp [Expr.children])),
+        denList_substE cs (fun c hc => h.child (by simp [Expr.children, hc]))]
+  | .callKw a bs ns cs, h => by
+      simp only [substE, den, den_substE a (h.child (by simp [Expr.children])),
+        denList_substE bs (fun c hc => h.child (by simp [Expr.children, hc])),
+        denList_substE cs (fun c hc => h.child (by simp [Expr.children, hc]))]
+theorem denFold_substE (o : NaryOp) : ∀ (acc : Value) (cs : List Expr), (∀ c ∈ cs, NoZeroCse σ c) →
+    denFold env o acc (substEL σ cs) = denFold (envAfter env σ) o acc cs
+  | _, [], _ => by simp only [substEL, denFold]
+  | acc, c :: cs, h => by
+      simp only [substEL, denFold, den_substE c (h c (by simp))]
+      cases den (envAfter env σ) c with
+      | error e => rfl
+      | ok v =>
+        simp only [bind, Except.bind]
+        cases o.apply acc v with
+        | error e => rfl
+        | ok acc' => exact denFold_substE o acc' cs (fun c hc => h c (by simp [hc]))
+theorem denReduce_substE (o : NaryOp) : ∀ (cs : List Expr), (∀ c ∈ cs, NoZeroCse σ c) →
+    denReduce env o (substEL σ cs) = denReduce (envAfter env σ) o cs
+  | [], _ => by simp only [substEL, denReduce]
+  | c :: cs, h => by
+      simp only [substEL, denReduce, den_substE c (h c (by simp))]
+      cases den (envAfter env σ) c with
+      | error e => rfl
+      | ok v => exact denFold_substE o v cs (fun c hc => h c (by simp [hc]))
+theorem denAny_substE : ∀ (cs : List Expr), (∀ c ∈ cs, NoZeroCse σ c) →
+    denAny env (substEL σ cs) = denAny (envAfter env σ) cs
+  | [], _ => by simp only [substEL, denAny]
+  | c :: cs, h => by
+      simp only [substEL, denAny, den_substE c (h c (by simp)),
+        denAny_substE cs (fun c hc => h c (by simp [hc]))]
+theorem denAll_substE : ∀ (cs : List Expr), (∀ c ∈ cs, NoZeroCse σ c) →
+    denAll env (substEL σ cs) = denAll (envAfter env σ) cs
+  | [], _ => by simp only [substEL, denAll]
+  | c :: cs, h => by
+      simp only [substEL, denAll, den_substE c (h c (by simp)),
+        denAll_substE cs (fun c hc => h c (by simp [hc]))]
+theorem denMinMax_substE (isMin : Bool) : ∀ (cur : Option Value) (cs : List Expr),
+    (∀ c ∈ cs, NoZeroCse σ c) →
+    denMinMax env isMin cur (substEL σ cs) = denMinMax (envAfter env σ) isMin cur cs
+  | _, [], _ => by simp only [substEL, denMinMax]
+  | cur, c :: cs, h => by
+      have hcs : ∀ c ∈ cs, NoZeroCse σ c := fun c hc => h c (by simp [hc])
+      simp only [substEL, denMinMax, den_substE c (h c (by simp))]
+      cases den (envAfter env σ) c with
+      | error e => rfl
+      | ok v =>
+        simp only [bind, Except.bind]
+        cases cur with
+        | none => exact denMinMax_substE isMin (some v) cs hcs
+        | some m =>
+          simp only
+          cases Value.better isMin v m with
+          | error e => rfl
+          | ok b => exact denMinMax_substE isMin _ cs hcs
+theorem denList_substE : ∀ (cs : List Expr), (∀ c ∈ cs, NoZeroCse σ c) →
+    denList env (substEL σ cs) = denList (envAfter env σ) cs
+  | [], _ => by simp only [substEL, denList]
+  | c :: cs, h => by
+      simp only [substEL, denList, den_substE c (h c (by simp)),
+        denList_substE cs (fun c hc => h c (by simp [hc]))]
+end
+
+/-- **Substitution lemma.**  For a name-keyed substitution whose replacements all evaluate,
+evaluating the substituted tree equals evaluating the original tree in the environment where each
+replaced name is bound to the value of its replacement — value or error alike. -/
+theorem eval_subst (e : Expr) (h : NoZeroCse σ e) :
+    den env (substM σ e).1 = den (envAfter env σ) e := by
+  rw [(substM_spec σ e).1]; exact den_substE hσ hok e h
+
+end
+
+/-! ### a decidable checker for the `NoZeroCse` hypothesis -/
+
+mutual
+def noZeroCseB (σ : SubstMap) : Expr → Bool
+  | .cse c _ _ => !(substM σ c).1.isZero && noZeroCseB σ c
+  | .nary _ cs => noZeroCseBL σ cs
+  | .bin _ a b => noZeroCseB σ a && noZeroCseB σ b
+  | .un _ a => noZeroCseB σ a
+  | .cmp _ a b => noZeroCseB σ a && noZeroCseB σ b
+  | .ite c t e => noZeroCseB σ c && noZeroCseB σ t && noZeroCseB σ e
+  | .call f as => noZeroCseB σ f && noZeroCseBL σ as
+  | .callKw f as _ vs => noZeroCseB σ f && noZeroCseBL σ as && noZeroCseBL σ vs
+  | .subscript a i => noZeroCseB σ a && noZeroCseB σ i
+  | .lookup a _ => noZeroCseB σ a
+  | .subst c _ xs => noZeroCseB σ c && noZeroCseBL σ xs
+  | .deriv c _ => noZeroCseB σ c
+  | .slice cs => noZeroCseBL σ cs
+  | .tuple cs => noZeroCseBL σ cs
+  | .list cs => noZeroCseBL σ cs
+  | _ => true
+def noZeroCseBL (σ : SubstMap) : List Expr → Bool
+  | [] => true
+  | c :: cs => noZeroCseB σ c && noZeroCseBL σ cs
+end
+
+theorem noZeroCseBL_mem {σ : SubstMap} : ∀ {cs : List Expr}, noZeroCseBL σ cs = true →
+    ∀ c ∈ cs, noZeroCseB σ c = true
+  | [], _, c, hc => by simp at hc
+  | d :: ds, h, c, hc => by
+    simp only [noZeroCseBL, Bool.and_eq_true] at h
+    simp only [List.mem_cons] at hc
+    rcases hc with rfl | hc
+    · exact h.1
+    · exact noZeroCseBL_mem h.2 c hc
+
+theorem noZeroCseB_children {σ : SubstMap} {e : Expr} (h : noZeroCseB σ e = true) :
+    ∀ c ∈ e.children, noZeroCseB σ c = true := by
+  intro c hc
+  cases e <;> simp only [Expr.children, List.mem_cons, List.mem_append, List.not_mem_nil,
+    or_false] at hc <;> simp only [noZeroCseB, Bool.and_eq_true] at h
+  all_goals first
+    | exact noZeroCseBL_mem h c hc
+    | (rcases hc with rfl | rfl | rfl <;> simp_all)
+    | (rcases hc with rfl | rfl <;> simp_all)
+    | (rcases hc with rfl | hc | hc
+       · exact h.1.1
+       · exact noZeroCseBL_mem h.1.2 c hc
+       · exact noZeroCseBL_mem h.2 c hc)
+    | (rcases hc with rfl | hc
+       · exact h.1
+       · exact noZeroCseBL_mem h.2 c hc)
+    | (subst hc; simp_all)
+    | simp at hc
+
+theorem noZeroCse_of_check {σ : SubstMap} {e : Expr} (h : noZeroCseB σ e = true) :
+    NoZeroCse σ e := by
+  intro c p s ht
+  have : ∀ t e, Subterm t e → noZeroCseB σ e = true → noZeroCseB σ t = true := by
+    intro t e ht
+    induction ht with
+    | refl => exact id
+    | step _ hc ih => exact fun h => ih (noZeroCseB_children h _ hc)
+  have h2 := this _ _ ht h
+  simp only [noZeroCseB, Bool.and_eq_true, Bool.not_eq_true'] at h2
+  exact h2.1
+
+theorem substOK_of_all {env : Env} {σ : SubstMap}
+    (h : ∀ p ∈ σ.byName, ∃ v, den env p.2 = .ok v) : SubstOK env σ := by
+  intro x r hf
+  simp only [SubstMap.findName] at hf
+  cases hq : σ.byName.find? (fun p => p.1 == x) with
+  | none => simp [hq] at hf
+  | some q =>
+    simp only [hq, Option.some.injEq] at hf
+    subst hf
+    exact h q (List.mem_of_find?_eq_some hq)
+
+/-! ### simultaneity -/
+
+/-- A replacement is inserted as it is: the mapper does not descend into it, so replacements are
+never re-substituted (simultaneous substitution). -/
+theorem subst_simultaneous (σ : SubstMap) (x : String) (r : Expr)
+    (h : σ.apply (.var x) = some r) : substM σ (.var x) = (r, true) := by
+  simp [substM, h]
+
+theorem subst_simultaneous_subscript (σ : SubstMap) (a i r : Expr)
+    (h : σ.apply (.subscript a i) = some r) : substM σ (.subscript a i) = (r, true) := by
+  simp [substM, h]
+
+theorem subst_simultaneous_lookup (σ : SubstMap) (a : Expr) (n : String) (r : Expr)
+    (h : σ.apply (.lookup a n) = some r) : substM σ (.lookup a n) = (r, true) := by
+  simp [substM, h]
+
+def swapXY : SubstMap := { byName := [("x", .var "y"), ("y", .var "x")] }
+
+/-- the swap `x→y, y→x` on `x + y` and on `x ** y`: both names are exchanged at once -/
+example : substM swapXY (.nary .sum [.var "x", .var "y"]) =
+    (.nary .sum [.var "y", .var "x"], true) := rfl
+
+example : substM swapXY (.bin .pow (.var "x") (.var "y")) =
+    (.bin .pow (.var "y") (.var "x"), true) := rfl
+
+example : den [("x", .int 2), ("y", .int 3)] (.bin .pow (.var "x") (.var "y")) = .ok (.int 8) ∧
+    den [("x", .int 2), ("y", .int 3)] (substM swapXY (.bin .pow (.var "x") (.var "y"))).1
+      = .ok (.int 9) := by
+  constructor <;> rfl
+
+/-! ### non-vacuity of `eval_subst` -/
+
+def demoσ : SubstMap :=
+  { byName := [("x", .nary .sum [.var "y", .const (.int 1)]), ("y", .var "x")] }
+
+def demoE : Expr :=
+  let c := Expr.cse (.nary .sum [.var "x", .const (.int 1)]) none "s"
+  .ite (.cmp .lt c (.const (.int 5))) (.nary .prod [c, .var "y"]) (.call (.var "f") [c])
+
+def demoEnv : Env := [("x", .int 2), ("y", .int 10), ("f", .func "f")]
+
+example :
+    den demoEnv (substM demoσ demoE).1 = den (envAfter demoEnv demoσ) demoE ∧
+    den demoEnv (substM demoσ demoE).1 = .ok (.app "f" [.int 12] [] []) ∧
+    envAfter demoEnv demoσ = [("x", .int 11), ("y", .int 2), ("x", .int 2), ("y", .int 10), ("f", .func "f")] := by
+  refine ⟨eval_subst rfl (substOK_of_all ?_) demoE (noZeroCse_of_check (by decide)), ?_, by rfl⟩
+  · intro p hp
+    simp only [demoσ, List.mem_cons, List.not_mem_nil, or_false] at hp
+    rcases hp with rfl | rfl
+    · exact ⟨.int 11, rfl⟩
+    · exact ⟨.int 2, rfl⟩
+  · rfl
+
+/-! ### why `NoZeroCse` is needed (witnesses) -/
+
+/-- Even the EMPTY substitution changes the meaning of a CSE around `False`: the wrapper collapses
+to the integer `0`. -/
+example : den [] (substM {} (.cse (.const (.bool false)) none "s")).1 = .ok (.int 0) ∧
+    den (envAfter [] {}) (.cse (.const (.bool false)) none "s") = .ok (.bool false) :=
+  ⟨rfl, rfl⟩
+
+/-- … and an erroring product with a zero factor becomes the value `0`. -/
+example :
+    let σ : SubstMap := { byName := [("x", .const (.int 0))] }
+    let e := Expr.cse (.nary .prod [.var "x", .var "z"]) none "s"
+    den [] (substM σ e).1 = .ok (.int 0) ∧
+    den (envAfter [] σ) e = .error (.unknownVar "z") :=
+  ⟨rfl, rfl⟩
+
+end PV.C08
